@@ -22,7 +22,7 @@ E2E_ASSUME = [
 
 CHECKS = {
     "C01": {
-        "module": "Vanguard.Props.C01", "namespace": "Vanguard.C01", "streams": ["e2e"],
+        "module": "Vanguard.Props.C01", "namespace": "Vanguard.C01", "streams": ["e2e", "rest"],
         "partial": "per-message transformation is proved for every world satisfying the codec/compressor laws; whole-stream fidelity "
                    "is checked against ground truth on fake codecs (raw/hexa/rev) and RLE compressors, not on real proto/json/gzip",
         "assumptions": E2E_ASSUME + ["WorldLaws (decode∘encode = id, decompress∘compress = id, compressed output non-empty) are hypotheses"],
@@ -34,22 +34,23 @@ CHECKS = {
     },
     "C05": {
         "module": "Vanguard.Props.C05", "namespace": "Vanguard.C05", "streams": ["e2e"],
-        "partial": "request direction proved; response headers and trailer relocation are checked by correspondence and ground-truth oracle",
+        "partial": "request direction and response headers proved (application headers reach the backend / the client's head with the same values for every protocol pairing); protocol status keys never stay in application trailers; the relocation of trailers to the place the client's protocol defines, and error responses, are checked by correspondence and ground-truth oracle",
         "assumptions": E2E_ASSUME,
     },
     "C03": {
         "module": "Vanguard.Props.C03", "namespace": "Vanguard.C03", "streams": ["e2e", "schema"],
-        "partial": "that the model's whole response satisfies the protocol validator for every scenario is not a theorem yet",
+        "partial": "exactly-one-outcome is proved for whole runs of the model; that the rendered bytes (content type, envelope framing, compression flags vs. bytes, Content-Length) satisfy the protocol validator for every scenario is checked by validator and correspondence, not a theorem",
         "assumptions": E2E_ASSUME,
     },
     "C08": {
         "module": "Vanguard.Props.C08", "namespace": "Vanguard.C08", "streams": ["chunk"],
-        "partial": "segmentation independence is proved for the primitive exact reader (io.ReadFull/CopyN over adversarial chunkings); "
-                   "for the whole adapters it is checked metamorphically on model and implementation",
+        "partial": "segmentation independence is proved for the primitive exact reader (io.ReadFull/CopyN over adversarial chunkings) and for the "
+                   "transcoder's message reader (the sequence of enveloped request messages and its final condition); "
+                   "for the read/write adapters (handler read-buffer sizes, backend write pieces, flushes) it is checked metamorphically on model and implementation",
         "assumptions": E2E_ASSUME,
     },
     "C09": {
-        "module": "Vanguard.Props.C09", "namespace": "Vanguard.C09", "streams": ["envelope", "e2e"],
+        "module": "Vanguard.Props.C09", "namespace": "Vanguard.C09", "streams": ["envelope", "e2e", "rest"],
         "partial": "corrupt compressed payloads and undecodable payloads are covered by the per-message theorem of C01 (error, never altered data) "
                    "and by correspondence; a declared Content-Length the body does not honour is outside the in-memory harness (net/http enforces it)",
         "assumptions": E2E_ASSUME,
